@@ -99,9 +99,37 @@ def stmt(z, E):
     return out
 
 
+ALWAYS_SEARCH = True
+
+
+def threshold_sweep(ctx):
+    """exhaustive over all 5565 charge states: exactly 0 at and one ulp below the smallest binding
+    energy, positive one ulp above (the real kernel, no model involved)"""
+    import ebisim
+    V = []
+    n = 0
+    for z in range(1, 106):
+        el = xscorr.element(z)
+        occ = el.e_cfg > 0
+        for cs in range(z):
+            thr = el.e_bind[cs][occ[cs]].min()
+            for e, want_pos in ((thr, False), (np.nextafter(thr, 0), False), (np.nextafter(thr, np.inf), True)):
+                v = ebisim.eixs_vec(el, float(e))[cs]
+                n += 1
+                if (v > 0) != want_pos or not np.isfinite(v) or v < 0:
+                    V.append({"key": {"clause": "threshold_sweep", "Z": z, "cs": cs}, "what": f"eixs_vec(Z={z}, E={float(e)!r})[{cs}] = {v!r}; smallest binding energy of the charge state is {float(thr)!r}",
+                              "input": {"Z": z, "E": float(e)}})
+                    break
+        if len(V) > 5:
+            break
+    ctx.count("threshold_probes", n)
+    ctx.evaluations += n
+    return V
+
+
 def search(ctx):
     rng = np.random.default_rng([ctx.seed, 707])
-    V = []
+    V = threshold_sweep(ctx)
     cases = []
     for f in ctx.failures:
         inp = f.get("input") or {}
